@@ -461,6 +461,10 @@ func identStream(c *Ctx) {
 				{identFns[2], []string{"1"}, []string{"1 "}},
 				{identFns[4], []string{"a", ""}, []string{"a"}},
 				{identFns[3], []string{`\`, `"`}, []string{`\"`, ``}},
+				{identFns[3], []string{"a,b", "c"}, []string{"a", "b,c"}},
+				{identFns[4], []string{"a,b"}, []string{"a", "b"}},
+				{identFns[4], []string{","}, []string{"", ""}},
+				{identFns[3], []string{"a] [b", "c"}, []string{"a", "b] [c"}},
 			}
 			if c.Prop == "C14" {
 				prs = append(prs, pr{identFns[2], []string{"\xff"}, []string{"\xfe"}}, pr{identFns[4], []string{"a\xffb", "z"}, []string{"a\xfeb", "z"}})
